@@ -58,9 +58,12 @@ type NOp struct {
 	PresetNext bool `json:"presetnext,omitempty"`
 	// PoolMut (peer, adversarial): the first pending transaction the block includes (op.Pool) is carried with an altered
 	// body - first output paid to somebody else - under its ORIGINAL txid and signatures
-	PoolMut bool     `json:"poolmut,omitempty"`
-	Old     []string `json:"old,omitempty"`   // peer: txids (hex) of already confirmed transactions to re-include
-	TxsAt   *int     `json:"txsat,omitempty"` // peer: assemble the block's transactions against the state after this block (adversarial)
+	PoolMut bool `json:"poolmut,omitempty"`
+	// PoolForce (peer, adversarial): the listed pending transactions are carried even when they are no longer valid
+	// after the block's other transactions (a pending transaction whose read set the block itself has made stale)
+	PoolForce bool     `json:"poolforce,omitempty"`
+	Old       []string `json:"old,omitempty"`   // peer: txids (hex) of already confirmed transactions to re-include
+	TxsAt     *int     `json:"txsat,omitempty"` // peer: assemble the block's transactions against the state after this block (adversarial)
 }
 
 // NodeMachine couples a real node with the reference model.
@@ -655,7 +658,21 @@ func (nm *NodeMachine) Apply(op NOp) error {
 		alteredAt := -1
 		for _, idHex := range op.Pool {
 			for _, ptx := range nm.Pool {
-				if (hex.EncodeToString(ptx.Txid) == idHex || idHex == "*") && s.Check(ptx, height) == nil {
+				if hex.EncodeToString(ptx.Txid) != idHex && idHex != "*" {
+					continue
+				}
+				if e := s.Check(ptx, height); e != nil {
+					if op.PoolForce {
+						if valid {
+							valid = false
+							whyNot = fmt.Sprintf("pending transaction %s is not valid after the block's other transactions: %v", Hex8(ptx.Txid), e)
+						}
+						txs = append(txs, CloneTx(ptx))
+						nm.Stat["peer-stale-pending-tx-forced"]++
+					}
+					continue
+				}
+				{
 					s.Apply(ptx, prop.Address)
 					cp := CloneTx(ptx)
 					if op.PoolMut && !poolMutDone && len(cp.TxOutputs) > 0 && string(cp.TxOutputs[0].ToAddr) != FeeAddr {
